@@ -68,4 +68,24 @@ let case line =
   let p = match tids with [] -> "-" | i :: _ -> string_of_int (int_of_n i) in
   if List.exists (fun x -> x = OPanic) outs then "panic" else Printf.sprintf "%s | P%s" body p
 
-let () = main_loop case
+(* mode `iter`: `fuel nitems { ncomps comp* node }` -> the items of the modelled TreeIterator *)
+let iter_case line =
+  let t = toks line in
+  let fuel = ni t in
+  let n = ni t in
+  let items = ntimes n (fun () ->
+    let nc = ni t in
+    let p = ntimes nc (fun () -> match ni t with 0 -> CRoot | 1 -> CCur | 2 -> CParent | _ -> CNormal (n_of_int (ni t))) in
+    let nd = rd_node t in
+    { i_path = p; i_node = nd; i_open = None }) in
+  let mt nd = match nd.n_meta.m_mtime with None -> "-" | Some x -> string_of_int (int_of_n x) in
+  match titer (nat_of_int fuel) items with
+  | None -> "diverges"
+  | Some evs ->
+    let tok = function
+      | EvNew (nd, name) -> Printf.sprintf "N:%d:%d:%d:%s" (int_of_n name) (int_of_n nd.n_name) (int_of_n nd.n_meta.m_other) (mt nd)
+      | EvEnd -> "E"
+      | EvOther (nd, _) -> Printf.sprintf "O:%d:%d:%s" (int_of_n nd.n_name) (int_of_n nd.n_meta.m_other) (mt nd) in
+    if evs = [] then "-" else String.concat " " (List.map tok evs)
+
+let () = if Array.length Sys.argv > 2 && Sys.argv.(2) = "iter" then main_loop iter_case else main_loop case
